@@ -338,6 +338,7 @@ MUTANTS += [
     M("logsumexp ignores axis", _U, "return c + xp.log(xp.sum(xp.exp(x - c), axis=axis))", "return c + xp.log(xp.sum(xp.exp(x - c)))", "C02.lse"),
 ]
 NEUTRALS = [
+    M("evidence with the -log N inside the logsumexp", _S, "self.log_evidence = asarray(logsumexp(self.log_w), self.xp) - math.log(\n            len(self.x)\n        )", "self.log_evidence = asarray(logsumexp(self.log_w - math.log(len(self.x))), self.xp)"),
     M("ESS via normalised weights", _S, "self.effective_sample_size = self.xp.exp(\n            asarray(logsumexp(log_w) * 2 - logsumexp(log_w * 2), self.xp)\n        )", "wn = self.xp.exp(log_w - logsumexp(log_w))\n        self.effective_sample_size = 1 / self.xp.sum(wn**2)", within="Samples.compute_weights"),
     M("log_w operands reordered", _S, "self.log_w = self.log_likelihood + self.log_prior - self.log_q",
       "self.log_w = -self.log_q + self.log_prior + self.log_likelihood"),
